@@ -15,11 +15,11 @@ from ..symx import Expander, TupleV, ListV
 from ..ncf import M
 from .. import ncf, anf
 from ..anf import R, Unsupported
-from .common import default_instance_obligations, struct_ob, guard, gradient_lists_in_order, U
+from .common import memo_obligations, dtype_hazard_obligations, default_instance_obligations, struct_ob, guard, gradient_lists_in_order, U
 from ..report import Ob, AnalysisError
 
 REL = "inference/gp/inversion.py"
-FLOORS = {"components-not-shared": 1, "posterior-form": 3, "evidence-form": 2, "evidence-gradient-form": 2, "noise-matrices": 1,
+FLOORS = {"float-arithmetic": 1, "components-not-shared": 1, "posterior-form": 3, "evidence-form": 2, "evidence-gradient-form": 2, "noise-matrices": 1,
           "triangular-solves": 1, "slice-layout": 2}
 
 ATOMS = {"self.A": ("A", 2, False), "self.y": ("y", 1, False), "self.inv_sigma": ("Si", 2, True),
@@ -176,6 +176,10 @@ def run(prog, tier):
                          "hyper-parameter slices, labels and bounds must all be mean-first then covariance: " + "; ".join(why_), REL, init.lineno))
 
     obs.extend(default_instance_obligations(prog, "components-not-shared", [('GpLinearInverter', '__init__')]))
+
+    obs.extend(dtype_hazard_obligations(prog, "float-arithmetic", ['inference/gp/inversion.py']))
+
+    obs.extend(memo_obligations(prog, "cache-key", [prog.cls("GpLinearInverter")]))
 
     meta = {
         "explanation": "Matrix normal form (non-commutative words with transposition, triangular-solve and solve atoms, trace and "
